@@ -1,1 +1,56 @@
-/-! C17 — property theorems (none yet). -/
+import Req.Lemmas.Form
+/-!
+C17 — form data, multipart uploads and marshalled bodies arrive exactly as supplied;
+progress callbacks are truthful.
+
+Part 1 (this section): form data.
+* `ordered_form_roundtrip` — what `handleOrderedFormData` writes for ANY list of key/value byte
+  strings is parsed by the server (`url.ParseQuery`) back to exactly that list, in order,
+  without error.
+* `ordered_args_roundtrip`, `ordered_odd_rejected` — the raw `SetOrderedFormData` argument list.
+* `form_roundtrip` — `url.Values.Encode` of ANY map (any iteration order): the server holds,
+  for every key, exactly the values supplied for it, in order, and reports no error.
+-/
+namespace Req.Props.C17
+open Req.Proto Req.Form
+
+/-- **ordered_form_roundtrip** -/
+theorem ordered_form_roundtrip (ps : List Pair) : parseForm (encodePairs ps) = (ps, false) :=
+  parseForm_encodePairs ps
+
+example : parseForm (encodePairs [([97, 32, 38], [61, 37, 200]), ([], []), ([97, 32, 38], [43])])
+    = ([([97, 32, 38], [61, 37, 200]), ([], []), ([97, 32, 38], [43])], false) := by decide
+
+/-- The argument list `k1, v1, k2, v2, …` of `SetOrderedFormData`. -/
+theorem ordered_args_roundtrip (ps : List Pair) :
+    (encodeOrdered (ps.flatMap (fun p => [p.1, p.2]))).map parseForm = some (ps, false) := by
+  simp [encodeOrdered, pairUp_flat, parseForm_encodePairs]
+
+/-- An odd number of arguments is rejected (`errBadOrderedFormData`), nothing is encoded. -/
+theorem ordered_odd_rejected (args : List Bytes) (h : args.length % 2 = 1) :
+    encodeOrdered args = none := by
+  suffices hp : pairUp args = none by simp [encodeOrdered, hp]
+  induction args using pairUp.induct with
+  | case1 => simp at h
+  | case2 => simp [pairUp]
+  | case3 k v rest ih =>
+    have : rest.length % 2 = 1 := by simp at h; omega
+    simp [pairUp, ih this]
+
+example : encodeOrdered [[97], [98], [99]] = none := by decide
+
+/-- **form_roundtrip** (multimap equality): no error, and under every key exactly the supplied
+values in the supplied order — whatever the map's iteration order `m` was. -/
+theorem form_roundtrip (m : Values) :
+    (parseForm (encode m)).2 = false ∧
+    ∀ k, valuesOfPairs (parseForm (encode m)).1 k = valuesOf m k := by
+  unfold encode
+  rw [parseForm_encodePairs]
+  refine ⟨rfl, fun k => ?_⟩
+  simp only
+  rw [valuesOfPairs_flatten, valuesOf_sortKeys]
+
+example : (parseForm (encode [([98], [[1], [2]]), ([97, 38], [[61]]), ([], [[]])])).1
+    = [([], []), ([97, 38], [61]), ([98], [1]), ([98], [2])] := by decide
+
+end Req.Props.C17
